@@ -1470,8 +1470,9 @@ static int parse_loop(struct scanner_s *scanner, cif_container_tp *container) {
                             scanner->skip_depth = 2;
                             break;
                         case CIF_TRAVERSE_END:
+                        default:
+                            /* end the parse, or abort it with the handler's error code */
                             goto loop_body_end;
-                        /* default: do nothing */
                     }
                 }  /* else loop == NULL from its initialization */
 
